@@ -149,8 +149,12 @@ func record(id, kind string, raw json.RawMessage, r Result, sampleEvery int) {
 	c.Cases++
 	c.Evaluations += 1 + r.Sub
 	c.Classes["kind:"+kind]++
+	seen := map[string]bool{}
 	for _, cl := range r.Classes {
-		c.Classes[cl]++
+		if !seen[cl] {
+			seen[cl] = true
+			c.Classes[cl]++
+		}
 	}
 	if r.NonTrivial {
 		h := Hash(append([]byte(kind+"|"), raw...))
